@@ -422,8 +422,32 @@ pub fn huge_bound(specs: &[RuleSpec]) {
     }
 }
 
+/// C04: a zero or negative bound is still a bound a caller can pass: range iteration terminates
+/// (every interval starts strictly after the previous one) and state is unchanged.
+pub fn tiny_bound(specs: &[RuleSpec]) {
+    let (expr, _models) = build_expr(specs);
+    let oh = OpeningHours::verif_from_expression(expr, context());
+    let b = vrt::fresh_int("bound_s", -3 * SECS, 0);
+    let ohb = oh.clone().with_context(context().approx_bound_interval_size(delta(b)));
+    let d0 = probe_day(0);
+    let s0 = vrt::fresh_int("t_s", 0, SECS - 1);
+    let t = datetime(d0, s0);
+    vrt::check("bound: state is unchanged", SymBool::Const(oh.state(t) == ohb.state(t)));
+    let (got, truncated) = collect(ohb.iter_range(t, datetime(day_after(d0, 3), s0)), 24);
+    vrt::check("totality: range iteration with a zero or negative bound terminates", SymBool::Const(!truncated));
+    for w in got.windows(2) {
+        vrt::check("totality: intervals of a bounded iteration make progress", w[0].start.lt(w[1].start));
+    }
+}
+
 pub fn templates_bounded(thorough: bool) -> Vec<Template> {
     let mut out = vec![];
+    {
+        let n = RuleOperator::Normal;
+        let sp = vec![spec(n, KindSpec::NonClosed, Sel::We, vec![SpanSpec::Free], vec![])];
+        let desc = format!("interval-size bound in -3 days..=0 (symbolic seconds), iter_range over 3 days from 2024-06-12 + t_s of: {}", describe(&sp));
+        out.push(Template::new("tiny_bound", desc, move || tiny_bound(&sp)));
+    }
     {
         let n = RuleOperator::Normal;
         let sp = vec![spec(n, KindSpec::NonClosed, Sel::We, vec![SpanSpec::Free], vec![])];
